@@ -281,14 +281,15 @@ def run_shard(spec, rec):
     rec.require("Tx.is_solution_ok", "fresh_object_compared", "missing_unspent_checked")
     for ht in ("all", "none", "single", "all+acp", "none+acp", "single+acp"):
         pass
-    rng = shard_rng(spec["seed"], PROPERTY, spec["tier"], spec["shard"])
     keys = G.Keys(24)
     core, o1, o2 = c05.networks_for_slot(spec["slot"] + spec["seed"])
     nets = [core] * 5 + [o1]
     for k in range(spec["n"]):
         code = nets[k % len(nets)]
         net = network_for_netcode(code)
+        rng = shard_rng(spec["seed"], PROPERTY, spec["tier"], spec["shard"], salt=k)
         h = Tamper(rec, net, code, rng, keys, std_flags=(k % 2 == 0))
+        h.coord = [spec["seed"], spec["tier"], spec["shard"], k]
         try:
             h.run()
         except Exception as e:
@@ -304,15 +305,15 @@ def post_merge_requirements():
 
 
 def replay_case(case, rec):
+    """re-run exactly the stored history: its generator is a function of (seed, tier, shard, k)"""
     from pycoin.networks.registry import network_for_netcode
-    import random
     keys = G.Keys(24)
     net = network_for_netcode(case["net"])
-    for s in range(60):
-        h = Tamper(rec, net, case["net"], random.Random("replay:%d" % s), keys, std_flags=(s % 2 == 0))
-        try:
-            h.run()
-        except Exception as e:
-            rec.violation("history.crash.%s" % type(e).__name__, h.case(), repr(e), "no exception")
-        if rec.viol_count:
-            break
+    seed, tier, shard, k = case["coord"]
+    h = Tamper(rec, net, case["net"], shard_rng(seed, PROPERTY, tier, shard, salt=k), keys, std_flags=(k % 2 == 0))
+    h.coord = case["coord"]
+    try:
+        h.run()
+    except Exception as e:
+        rec.violation("history.crash.%s" % type(e).__name__, h.case(), repr(e), "no exception")
+    rec.note("mutations replayed: %d" % len(h.mlog))
